@@ -21,3 +21,26 @@ pub open spec fn clist(s: SExp) -> bool
     match s { SExp::Cons(_, h, r) => cexpr(*h) && clist(*r), _ => true }
 }
 pub open spec fn cexpr_r(s: &SExp) -> bool { cexpr(*s) }
+
+// the same shape without the demand that numbers are paths: what brief_path_selection_single needs of the chain it is given
+// (it checks itself that the number below the chain is >= 1 before composing paths; finding F43)
+pub open spec fn cshape(s: SExp) -> bool
+    decreases s, 1int
+{
+    match s {
+        SExp::Cons(_, h, r) => is_op(tv(*h), 1) || (!(*h is Cons) && clshape(*r)),
+        _ => true,
+    }
+}
+pub open spec fn clshape(s: SExp) -> bool
+    decreases s, 0int
+{
+    match s { SExp::Cons(_, h, r) => cshape(*h) && clshape(*r), _ => true }
+}
+pub open spec fn cshape_r(s: &SExp) -> bool { cshape(*s) }
+pub proof fn lemma_cexpr_shape(s: &SExp)
+    ensures cexpr(*s) ==> cshape(*s), clist(*s) ==> clshape(*s)
+    decreases *s
+{
+    match s { SExp::Cons(_, h, r) => { lemma_cexpr_shape(&**h); lemma_cexpr_shape(&**r); } _ => {} }
+}
